@@ -136,7 +136,7 @@ def run(ctx):
         ctx.count("corpus")
         ctx.case({"lib": c["lib"], "target": c["target"]}, nontrivial=True)
         check_lib(ctx, {"S": c["lib"]}, c["target"], drv)
-    n_libs = 170 if quick else 2500
+    n_libs = 150 if quick else 2500
     done = tries = 0
     while done < n_libs and tries < 30 * n_libs:
         tries += 1
@@ -146,7 +146,8 @@ def run(ctx):
         libs, target = gen_libs(ctx.rng, quick)
         trig = a05.triggers(libs["S"], target)
         if trig & {"ILLEGAL", "ILLEGAL-LOCAL"}:
-            raise HarnessError("generator produced an illegal library: %s" % a05.render(libs["S"]))
+            ctx.count("generator-made-illegal-library-skipped")
+            continue
         if trig & BLOCKING:
             ctx.count("skipped-open-C07-finding")
             continue
